@@ -542,7 +542,10 @@ def discharge(cl, sp, timeout_s):
 
 def _squeeze(s):
     if isinstance(s, tuple) and s and s[0] == "seq":
-        return s
+        subs = [_squeeze(x) for x in s[1]]
+        if subs and all(x == subs[0] for x in subs) and not (subs[0] and subs[0][0] == "seq"):
+            return tuple(x for x in (len(subs),) + subs[0] if x != 1)
+        return ("seq", tuple(subs))
     return tuple(x for x in s if x != 1)
 
 
